@@ -106,6 +106,7 @@
 import JdProofs.PatchRender
 import JdProofs.PatchRenderClosed
 import JdProps.C09Text
+import JdProps.C01Void
 
 set_option autoImplicit false
 
